@@ -1,12 +1,388 @@
-/-! Executable model for property C11 (core-only).  Not built yet: the driver answers
-    `unimplemented` so that a check of this property cannot pass by accident. -/
+/-! Executable model of `MonadIODef` (monadIO.go), closure by closure, plus the composition-tree
+    language of the correspondence protocol and the Spec (`run`: in-order traversal) the property
+    demands.  Core-only.
+
+    A MonadIO is its deferred `effect` closure plus the two handler fields.  An effect is a function
+    of the goroutine that executes it (`Tag`) and the world; the world is the log of every user-visible
+    event so far (user effects, continuation invocations, OnNext deliveries — each with the goroutine
+    that ran it) and one result cell (the captured `result` variable of `Cor.YieldFromIO`).
+    `Handler.Post(fn)` runs `fn` on the handler's goroutine; the protocol waits for quiescence after
+    every operation, so a post is modelled as running `fn` with the handler's tag (sequentialised). -/
+
 namespace FpgoVerif.C11
 
-/-- one protocol case line in, one canonical observation line out -/
-def handle (_line : String) : String := "unimplemented"
+/-- goroutine identity: the caller (`main`) or the run-loop goroutine of one of three handlers -/
+inductive Tag | main | h1 | h2 | h3
+deriving DecidableEq, Repr
 
-/-- spec-level oracle: given the case line and the observation printed by the real code, decide
-    whether the *property* is violated (`violation <why>`) or not (`allowed <why>`). -/
-def judge (_line _impl : String) : String := "violation model-and-implementation-disagree"
+/-- what happened, without the goroutine -/
+inductive Kind
+  | eff (id : Nat)          -- user effect `id` ran
+  | call (c x : Nat)        -- continuation `c` was invoked with `x`
+  | next (x : Nat)          -- OnNext received `x`
+deriving DecidableEq, Repr
+
+structure Ev where
+  kind : Kind
+  g : Tag
+deriving DecidableEq, Repr
+
+structure World where
+  log : List Ev
+  cell : Nat
+deriving DecidableEq, Repr
+
+def World.emit (w : World) (k : Kind) (g : Tag) : World := { w with log := w.log ++ [⟨k, g⟩] }
+def World.emits (w : World) (ks : List Kind) (g : Tag) : World := { w with log := w.log ++ ks.map (⟨·, g⟩) }
+
+/-- `type MonadIODef[T] struct { effect func() T; obOn, subOn *HandlerDef }` -/
+structure M (α : Type) where
+  effect : Tag → World → α × World
+  obOn : Option Tag
+  subOn : Option Tag
+
+/-- `type Subscription[T] struct { OnNext func(T) }` (nil = none) -/
+structure Subscription (α : Type) where
+  onNext : Option (α → Tag → World → World)
+
+variable {α : Type}
+
+/-- MonadIOJustGenerics: `&MonadIODef[T]{effect: func() T { return in }}` -/
+def just (x : α) : M α := ⟨fun _ w => (x, w), none, none⟩
+
+/-- MonadIONewGenerics: `&MonadIODef[T]{effect: effect}` -/
+def new (effect : Tag → World → α × World) : M α := ⟨effect, none, none⟩
+
+/-- doEffect: `return monadIOSelf.effect()` -/
+def doEffect (m : M α) (g : Tag) (w : World) : α × World := m.effect g w
+
+/-- FlatMap: `&MonadIODef[T]{effect: func() T { next := fn(self.doEffect()); return next.doEffect() }}`
+    — a fresh struct: the handler fields are not inherited -/
+def flatMap (m : M α) (fn : α → M α) : M α :=
+  ⟨fun g w => let r := doEffect m g w; doEffect (fn r.1) g r.2, none, none⟩
+
+/-- Eval: `return monadIOSelf.doEffect()` on the calling goroutine -/
+def eval (m : M α) (g : Tag) (w : World) : α × World := doEffect m g w
+
+/-- ObserveOn / SubscribeOn: set the field, return the receiver -/
+def observeOn (m : M α) (h : Option Tag) : M α := { m with obOn := h }
+def subscribeOn (m : M α) (h : Option Tag) : M α := { m with subOn := h }
+
+/-- Handler.Post(fn): fn runs on the handler's goroutine -/
+def post (h : Tag) (fn : Tag → World → World) (w : World) : World := fn h w
+
+/-- doSubscribe, statement by statement -/
+def doSubscribe (m : M α) (s : Subscription α) (obOn subOn : Option Tag) (g : Tag) (w : World) : World :=
+  match s.onNext with
+  | none => w
+  | some onNext =>
+    let doSub := fun (result : α) (g' : Tag) (w' : World) => onNext result g' w'
+    let doOb := fun (g' : Tag) (w' : World) =>
+      let r := doEffect m g' w'
+      match subOn with
+      | some h => post h (doSub r.1) r.2
+      | none => doSub r.1 g' r.2
+    match obOn with
+    | some h => post h doOb w
+    | none => doOb g w
+
+/-- Subscribe: reads the two fields, then doSubscribe -/
+def subscribe (m : M α) (s : Subscription α) (g : Tag) (w : World) : World :=
+  doSubscribe m s m.obOn m.subOn g w
+
+/-- Cor.YieldFromIO: `target.SubscribeOn(nil).Subscribe({OnNext: func(in){ result = in; wg.Done() }}); wg.Wait(); return result`
+    (the receiver is mutated: subOn stays nil afterwards) -/
+def yieldFromIO (m : M Nat) (g : Tag) (w : World) : M Nat × Nat × World :=
+  let m' := subscribeOn m none
+  let w' := subscribe m' ⟨some (fun x _ w => { w with cell := x })⟩ g { w with cell := 0 }
+  (m', w'.cell, w')
+
+/-! ## The composition trees of the protocol -/
+
+/-- Finite compositions of Just / New / FlatMap / ObserveOn / SubscribeOn.  Values are naturals below 1000;
+    `v` is the value bound by the innermost enclosing continuation (0 outside any). -/
+inductive Tree
+  | J (c : Nat)                          -- Just(c)
+  | V (a : Nat)                          -- Just((v + a) % 1000)
+  | N (id : Nat)                         -- New(effect id): logs, returns (7*id + #events so far) % 1000
+  | W (id : Nat)                         -- New(effect id): logs, returns (2*v + id + #events so far) % 1000
+  | H (id : Nat)                         -- New(func(){ return api.Eval() }) around a SimpleAPI GET built at construction; the
+                                         -- stub transport is effect `id` of kind N (network/simpleHTTP.go returns its call as a MonadIO)
+  | FR (t : Tree)                        -- t.FlatMap(Just)
+  | FL (c : Nat) (t b : Tree)            -- t.FlatMap(func(x){ log call c x; return b[x] })
+  | FC (c : Nat) (t b1 b2 : Tree)        -- t.FlatMap(func(x){ log call c x; if x even return b1[x] else b2[x] })
+  | A (x c : Nat) (b : Tree)             -- New(func(){ return f(x).Eval() })  with f the continuation (c, b)
+  | O (h : Option Tag) (t : Tree)        -- t.ObserveOn(h)
+  | S (h : Option Tag) (t : Tree)        -- t.SubscribeOn(h)
+deriving Repr
+
+def valN (id n : Nat) : Nat := (7 * id + n) % 1000
+def valW (v id n : Nat) : Nat := (2 * v + id + n) % 1000
+def valV (v a : Nat) : Nat := (v + a) % 1000
+
+/-- the user effect `id`: appends its event, returns a value that depends on the world -/
+def userEffect (id : Nat) (val : Nat → Nat) : Tag → World → Nat × World :=
+  fun g w => (val w.log.length, w.emit (.eff id) g)
+
+/-- a logging continuation as a pure function into MonadIO: invoking it is logged right before the body runs -/
+def kont (c : Nat) (body : Nat → M Nat) : Nat → M Nat :=
+  fun x => ⟨fun g w => doEffect (body x) g (w.emit (.call c x) g), none, none⟩
+
+/-- denotation: exactly the constructor calls the harness makes on the real library -/
+def den : Tree → Nat → M Nat
+  | .J c, _ => just c
+  | .V a, v => just (valV v a)
+  | .N id, _ => new (userEffect id (valN id))
+  | .W id, v => new (userEffect id (valW v id))
+  | .H id, _ => new (userEffect id (valN id))
+  | .FR t, v => flatMap (den t v) just
+  | .FL c t b, v => flatMap (den t v) (kont c (fun x => den b x))
+  | .FC c t b1 b2, v => flatMap (den t v) (kont c (fun x => if x % 2 = 0 then den b1 x else den b2 x))
+  | .A x c b, _ => new (fun g w => eval (kont c (fun y => den b y) x) g w)
+  | .O h t, v => observeOn (den t v) h
+  | .S h t, v => subscribeOn (den t v) h
+
+/-! ## Spec: what the property demands -/
+
+/-- The chain of a composition, in composition order: value and the events (each once) that one
+    evaluation must produce when `n` events are already in the log. -/
+def run : Tree → (v n : Nat) → Nat × List Kind
+  | .J c, _, _ => (c, [])
+  | .V a, v, _ => (valV v a, [])
+  | .N id, _, n => (valN id n, [.eff id])
+  | .W id, v, n => (valW v id n, [.eff id])
+  | .H id, _, n => (valN id n, [.eff id])
+  | .FR t, v, n => run t v n
+  | .FL c t b, v, n =>
+    let r1 := run t v n
+    let r2 := run b r1.1 (n + r1.2.length + 1)
+    (r2.1, r1.2 ++ .call c r1.1 :: r2.2)
+  | .FC c t b1 b2, v, n =>
+    let r1 := run t v n
+    let r2 := if r1.1 % 2 = 0 then run b1 r1.1 (n + r1.2.length + 1) else run b2 r1.1 (n + r1.2.length + 1)
+    (r2.1, r1.2 ++ .call c r1.1 :: r2.2)
+  | .A x c b, _, n =>
+    let r2 := run b x (n + 1)
+    (r2.1, .call c x :: r2.2)
+  | .O _ t, v, n => run t v n
+  | .S _ t, v, n => run t v n
+
+/-- static compositions: no data-dependent branch, so the chain is the same for every input -/
+def Tree.static : Tree → Bool
+  | .FR t => t.static
+  | .FL _ t b => t.static && b.static
+  | .FC .. => false
+  | .A _ _ b => b.static
+  | .O _ t => t.static
+  | .S _ t => t.static
+  | _ => true
+
+/-- an event without its data: which effect / which continuation -/
+inductive Label | eff (id : Nat) | call (c : Nat)
+deriving DecidableEq, Repr
+
+def Kind.label : Kind → Label
+  | .eff id => .eff id
+  | .call c _ => .call c
+  | .next _ => .call 0
+
+/-- composition order, read off the syntax: left operand, the continuation, its body -/
+def labels : Tree → List Label
+  | .N id => [.eff id]
+  | .W id => [.eff id]
+  | .H id => [.eff id]
+  | .FR t => labels t
+  | .FL c t b => labels t ++ .call c :: labels b
+  | .FC c t b1 _ => labels t ++ .call c :: labels b1
+  | .A _ c b => .call c :: labels b
+  | .O _ t => labels t
+  | .S _ t => labels t
+  | _ => []
+
+/-- handler fields of the composed value: only an outermost ObserveOn/SubscribeOn counts -/
+def rootOb : Tree → Option Tag
+  | .O h _ => h
+  | .S _ t => rootOb t
+  | _ => none
+def rootSub : Tree → Option Tag
+  | .S h _ => h
+  | .O _ t => rootSub t
+  | _ => none
+
+/-! ## Protocol -/
+
+def showTag : Tag → String
+  | .main => "m" | .h1 => "h1" | .h2 => "h2" | .h3 => "h3"
+
+def showEv (e : Ev) : String :=
+  match e.kind with
+  | .eff id => s!"E{id}@{showTag e.g}"
+  | .call c x => s!"K{c}({x})@{showTag e.g}"
+  | .next x => s!"D({x})@{showTag e.g}"
+
+def joinEvs (l : List String) : String := if l.isEmpty then "-" else " ".intercalate l
+def showEvs (l : List Ev) : String := joinEvs (l.map showEv)
+
+def parseTag (s : String) : Option (Option Tag) :=
+  match s with
+  | "0" => some none | "1" => some (some .h1) | "2" => some (some .h2) | "3" => some (some .h3)
+  | _ => none
+
+/-- prefix notation, fuel = number of tokens -/
+def parseTree : Nat → List String → Option (Tree × List String)
+  | 0, _ => none
+  | _ + 1, [] => none
+  | fuel + 1, tok :: rest =>
+    match tok, rest with
+    | "J", c :: rest => c.toNat?.map (fun c => (.J c, rest))
+    | "V", a :: rest => a.toNat?.map (fun a => (.V a, rest))
+    | "N", i :: rest => i.toNat?.map (fun i => (.N i, rest))
+    | "W", i :: rest => i.toNat?.map (fun i => (.W i, rest))
+    | "H", i :: rest => i.toNat?.map (fun i => (.H i, rest))
+    | "FR", rest => (parseTree fuel rest).map (fun (t, rest) => (.FR t, rest))
+    | "FL", c :: rest =>
+      match c.toNat?, parseTree fuel rest with
+      | some c, some (t, rest) => (parseTree fuel rest).map (fun (b, rest) => (.FL c t b, rest))
+      | _, _ => none
+    | "FC", c :: rest =>
+      match c.toNat?, parseTree fuel rest with
+      | some c, some (t, rest) =>
+        match parseTree fuel rest with
+        | some (b1, rest) => (parseTree fuel rest).map (fun (b2, rest) => (.FC c t b1 b2, rest))
+        | none => none
+      | _, _ => none
+    | "A", x :: c :: rest =>
+      match x.toNat?, c.toNat? with
+      | some x, some c => (parseTree fuel rest).map (fun (b, rest) => (.A x c b, rest))
+      | _, _ => none
+    | "O", h :: rest =>
+      match parseTag h with
+      | some h => (parseTree fuel rest).map (fun (t, rest) => (.O h t, rest))
+      | none => none
+    | "S", h :: rest =>
+      match parseTag h with
+      | some h => (parseTree fuel rest).map (fun (t, rest) => (.S h t, rest))
+      | none => none
+    | _, _ => none
+
+def tokens (s : String) : List String := (s.splitOn " ").filter (· ≠ "")
+
+/-- head = `<g|i> <tree tokens>`; the first token selects the generic / interface{} API on the Go side only -/
+def parseHead (head : String) : Option Tree :=
+  match tokens head with
+  | _ :: toks =>
+    match parseTree (toks.length + 1) toks with
+    | some (t, []) => some t
+    | _ => none
+  | [] => none
+
+/-- the harness' OnNext: logs the delivery -/
+def logNext : Nat → Tag → World → World := fun x g w => w.emit (.next x) g
+
+/-- the operations of a case: build-only, Eval, Subscribe with / without OnNext, Cor.YieldFromIO,
+    ObserveOn(h), SubscribeOn(h) on the composed value -/
+inductive Op | build | eval | sub | subNil | yield | ob (h : Option Tag) | so (h : Option Tag)
+deriving DecidableEq, Repr
+
+def parseOp (s : String) : Option Op :=
+  match s with
+  | "b" => some .build | "e" => some .eval | "s" => some .sub | "z" => some .subNil | "y" => some .yield
+  | "o0" => some (.ob none) | "o1" => some (.ob (some .h1)) | "o2" => some (.ob (some .h2)) | "o3" => some (.ob (some .h3))
+  | "u0" => some (.so none) | "u1" => some (.so (some .h1)) | "u2" => some (.so (some .h2)) | "u3" => some (.so (some .h3))
+  | _ => none
+
+/-- one operation of the implementation model: the current MonadIO value and world -/
+def implOp (st : M Nat × World) : Op → (M Nat × World) × String
+  | .build => (st, "-")
+  | .eval =>
+    let r := eval st.1 .main st.2
+    ((st.1, r.2), s!"v={r.1} {showEvs (r.2.log.drop st.2.log.length)}")
+  | .sub =>
+    let w' := subscribe st.1 ⟨some logNext⟩ .main st.2
+    ((st.1, w'), showEvs (w'.log.drop st.2.log.length))
+  | .subNil =>
+    let w' := subscribe st.1 ⟨none⟩ .main st.2
+    ((st.1, w'), showEvs (w'.log.drop st.2.log.length))
+  | .yield =>
+    let r := yieldFromIO st.1 .main st.2
+    ((r.1, r.2.2), s!"v={r.2.1} {showEvs (r.2.2.log.drop st.2.log.length)}")
+  | .ob h => ((observeOn st.1 h, st.2), "-")
+  | .so h => ((subscribeOn st.1 h, st.2), "-")
+
+def stepOp (st : M Nat × World) (op : String) : (M Nat × World) × String :=
+  match parseOp op with
+  | some o => implOp st o
+  | none => (st, "bad-op")
+
+def splitCase (line : String) : String × List String :=
+  match line.splitOn ": " with
+  | head :: rest =>
+    (head, (((": ".intercalate rest).splitOn ";").map (fun t => t.trimAscii.toString)).filter (· ≠ ""))
+  | [] => ("", [])
+
+def foldOps {σ : Type} (step : σ → String → σ × String) (init : σ) (ops : List String) : σ × List String :=
+  ops.foldl (fun (acc : σ × List String) op =>
+    let r := step acc.1 op
+    (r.1, r.2 :: acc.2)) (init, [])
+
+def runOps {σ : Type} (step : σ → String → σ × String) (init : σ) (ops : List String) : List String :=
+  (foldOps step init ops).2.reverse
+
+def w0 : World := ⟨[], 0⟩
+
+/-- protocol entry point of the implementation model -/
+def handle (line : String) : String :=
+  let (head, ops) := splitCase line
+  match parseHead head with
+  | none => "bad-case"
+  | some t => " | ".intercalate (runOps stepOp (den t 0, w0) ops)
+
+/-! ### Spec-level oracle: the statement of the property evaluated directly
+
+    State: the tree, the two handler fields as the operations set them, the number of events so far.
+    * Eval: value and chain of `run`, every event on the caller's goroutine.
+    * Subscribe with OnNext: the chain once on h1 (caller when nil), then one delivery of the value on h2
+      (h1's goroutine when nil).
+    * Subscribe without OnNext: nothing. -/
+
+structure SpecSt where
+  t : Tree
+  ob : Option Tag
+  sub : Option Tag
+  n : Nat
+
+def showKinds (ks : List Kind) (g : Tag) : List String := ks.map (fun k => showEv ⟨k, g⟩)
+def specOp' (st : SpecSt) : Op → SpecSt × String
+  | .build => (st, "-")
+  | .eval =>
+    let r := run st.t 0 st.n
+    ({ st with n := st.n + r.2.length }, s!"v={r.1} {joinEvs (showKinds r.2 .main)}")
+  | .sub =>
+    let r := run st.t 0 st.n
+    let g1 := st.ob.getD .main
+    let g2 := st.sub.getD g1
+    ({ st with n := st.n + r.2.length + 1 }, joinEvs (showKinds r.2 g1 ++ showKinds [.next r.1] g2))
+  | .subNil => (st, "-")
+  | .yield =>
+    let r := run st.t 0 st.n
+    let g1 := st.ob.getD .main
+    ({ st with n := st.n + r.2.length, sub := none }, s!"v={r.1} {joinEvs (showKinds r.2 g1)}")
+  | .ob h => ({ st with ob := h }, "-")
+  | .so h => ({ st with sub := h }, "-")
+
+def specOp (st : SpecSt) (op : String) : SpecSt × String :=
+  match parseOp op with
+  | some o => specOp' st o
+  | none => (st, "bad-op")
+
+def specCase (line : String) : String :=
+  let (head, ops) := splitCase line
+  match parseHead head with
+  | none => "bad-case"
+  | some t => " | ".intercalate (runOps specOp ⟨t, rootOb t, rootSub t, 0⟩ ops)
+
+def judge (line impl : String) : String :=
+  if impl = specCase line then "allowed implementation agrees with the statement (chain once, in order, right goroutines); the model differs"
+  else s!"violation the property demands: {specCase line}"
 
 end FpgoVerif.C11
